@@ -63,7 +63,25 @@ static long g_slots[64];
 long slot_add(int i, long d) { return g_slots[i & 63] += d; }
 long slot_get(int i) { return g_slots[i & 63]; }
 void slot_set(int i, long v) { g_slots[i & 63] = v; }
-void reset_case_state() { g_tick = 0; g_trace_n = 0; memset(g_slots, 0, sizeof g_slots); }
+// registry of live memory ranges (coroutine frames handed out by storage policies)
+static struct { const char *p; size_t n; } g_ranges[256]; static int g_nranges = 0;
+int range_add(const void *p, size_t n) {
+    const char *b = (const char *)p;
+    for (int i = 0; i < g_nranges; i++) if (b < g_ranges[i].p + g_ranges[i].n && g_ranges[i].p < b + n) return 0;   // overlaps a live range
+    if (g_nranges >= 256) return 2;
+    g_ranges[g_nranges++] = {b, n};
+    return 1;
+}
+int range_del(const void *p, size_t n) {
+    for (int i = 0; i < g_nranges; i++) if (g_ranges[i].p == (const char *)p) {
+        int ok = g_ranges[i].n == n ? 1 : 2;
+        g_ranges[i] = g_ranges[--g_nranges];
+        return ok;
+    }
+    return 0;
+}
+int range_count() { return g_nranges; }
+void reset_case_state() { g_tick = 0; g_trace_n = 0; g_nranges = 0; memset(g_slots, 0, sizeof g_slots); }
 
 [[noreturn]] void fail(const char *fmt, ...) {
     char msg[1000];
